@@ -83,6 +83,9 @@ Record sib := mkSib { s_kind : kind; s_orig : string; s_tag : option string (* p
 Fixpoint count_str (x : string) (l : list string) : nat :=
   match l with [] => 0 | y :: r => (if x =? y then 1 else 0) + count_str x r end.
 
+Definition is_item_kind (k : kind) : bool :=
+  match k with KStruct | KEnum | KService | KNewType | KConst | KMod => true | _ => false end.
+
 Section Conv.
   Variable conv : kind -> string -> string.
 
@@ -93,8 +96,13 @@ Section Conv.
     | None => if cc then conv (s_kind x) (s_orig x) else s_orig x
     end.
 
-  (* the map key inside one scope: cx.rust_name(def).to_string() / item_path.join("::") -- both go through Display *)
-  Definition key (cc : bool) (x : sib) : string := display (name0 cc x).
+  (* the map key inside one scope (context.rs 351-375):
+       items:      (vec![], cx.item_path(def_id).join("::")) -- `[Symbol]::join` is the std slice join over
+                   Borrow<str>, i.e. the RAW names, not Display; the module prefix is common to the siblings of
+                   one module, so inside a scope the key is the raw last segment
+       non-items:  (chain of parents, cx.rust_name(def_id).to_string()) -- through Display *)
+  Definition key (cc : bool) (x : sib) : string :=
+    if is_item_kind (s_kind x) then name0 cc x else display (name0 cc x).
 
   (* map.into_iter().filter(|(_, v)| v.len() > 1): the node ends up in cx.names *)
   Definition collides (cc : bool) (scope : list sib) (x : sib) : bool :=
